@@ -217,6 +217,9 @@ package aucoalesce
 // (msgs below is the slice after the trailing EOE record has been filtered out; the
 // clauses are split by group size only to spare the solver the case distinction)
 //@ ensures[C09] len(msgs) == 0 ==> result0 == nil && !isNil(result1)
+// in terms of the group as it was handed in: no records, or nothing but the EOE sentinel, is an error
+//@ ensures[C09] old(len(msgs)) == 0 ==> result0 == nil && !isNil(result1)
+//@ ensures[C09] old(len(msgs)) == 1 && old(at(msgs, lo(msgs)).RecordType) == auparse.AUDIT_EOE ==> result0 == nil && !isNil(result1)
 //@ ensures[C09] isNil(result1) ==> result0 != nil && len(msgs) >= 1
 //@ ensures[C09] !isNil(result1) ==> result0 == nil
 //@ ensures[C09] isNil(result1) && len(msgs) == 1 ==> result0.Sequence == at(msgs, lo(msgs)).Sequence
